@@ -36,7 +36,7 @@ def plan(tier, seed):
         return {'n': 30000, 'deadline': 150,
                 'floor': {'distinct_nontrivial': 2500, 'accepted': 5000, 'loaded': 5000, 'predicates_called': 8000,
                           'boundary_accepted': 2500, 'compiler_reported_too_large': 100}}
-    return {'n': 450000, 'deadline': 540,
+    return {'n': 580000, 'deadline': 540,
             'floor': {'distinct_nontrivial': 40000, 'accepted': 80000, 'loaded': 80000, 'predicates_called': 150000,
                       'boundary_accepted': 40000, 'compiler_reported_too_large': 2000}}
 
